@@ -110,7 +110,7 @@ Definition remaining_bytes (s : rstate) : res (list N * rstate) :=
   else do bs <- gslice (rbuf s) (rpos s) (rlen s); Ok (bs, with_pos s (rlen s)).
 
 (* NrRemainingBytes *)
-Definition nr_remaining (s : rstate) : Z := if rerr s then 0 else rlen s - rpos s.
+Definition nr_remaining (s : rstate) : Z := if rerr s then 0 else w64 (rlen s - rpos s).   (* int subtraction wraps *)
 
 (* SkipBytes(n) *)
 Definition skip_bytes (n : Z) (s : rstate) : rstate :=
